@@ -572,6 +572,7 @@ func TestC12(t *testing.T) {
 			r.Sample(map[string]any{"scenario": sc, "calls": res.Calls, "waiter_registrations": res.Regs})
 		}
 	})
+	holepunchPart(t, r)
 	r.Require("waiter_registrations", 200)
 	r.Require("streams_on_direct", 200)
 	r.Require("streams_on_limited_allowed", 50)
